@@ -210,6 +210,8 @@ SNIPS = [
     "<h2><table><tr><td>hx</td><td>hy</td></tr></table> more title</h2>\n\nbody text",
     "<h3><ul><li>hli</li><li>two</li></ul> more title</h3>\n\nbody text",
     "<h2>{|\n| wx || wy\n|}\n more</h2>\n\nbody text",
+    "{|\n| [[File:BSicon BHF.svg]] || train\n|-\n| [[File:BSicon STR.svg]] || line\n|}",
+    "some text\n\n== References ==\n<references/>\n",
     "<li>stray li</li>",
     "<td>stray td</td>",
     "<caption>stray cap</caption>",
